@@ -134,7 +134,8 @@ def sc_hier(eng):
     def build(eng):
         elems = []
         for i in range(2):
-            e = Obj("Element", {"__module__": MESH, "ghost_id": z3.IntVal(i)}, label="E%d" % i)
+            e = Obj("Element", {"__module__": MESH, "ghost_id": z3.IntVal(i),
+                                "levels": (z3.Int("lt_%d" % i), z3.Int("lx_%d" % i))}, label="E%d" % i)
             elems.append(e)
         phi = Vec([z3.Real("Phi_0"), z3.Real("Phi_1")])
         which = eng.choose(4, "data")       # g and M0 present or absent
